@@ -253,6 +253,10 @@ def run_worker(exe, args, flagset, seed, start, count, worker=0, nworkers=1, tim
                     nxt += 1
             cur = nxt
             continue
+        if restarts > max_restarts and c is not None and c >= 0:
+            # every restart died in an attributed case: the violations recorded so far are the verdict, the rest of the range is not run
+            res.truncated = getattr(res, "truncated", 0) + 1
+            break
         if c is None or c < 0 or restarts > max_restarts:
             if got_summary:
                 break  # e.g. leak report at exit: whole range ran
